@@ -58,6 +58,7 @@ def KeySet.VerifySignature (ks : KeySet) (j : JWS) : Go.R Payload :=
     match ks.keys.find? (fun k => k.KeyID == keyID) with
     | none => .error "error fetching keys"
     | some k => jwsVerify j k
+  | .nilSet => .error "nil key set"
   | .static =>
     -- test key set: any of the keys verifies
     match ks.keys.find? (fun k => (jwsVerify j k).toBool) with
